@@ -5,7 +5,9 @@
      mask   : mask, idx
      assign : n, key, value, ok, contents           contents on a vector initialised to 11..10+n
      elem   : mode, la, lb, na, nb, ok, nonepos     positions of None in the result
-     na     : vals, isna, dropna, fill (fill value 7)                                        *)
+     na     : vals, isna, dropna, fill (fill value 7)
+     rgetitem / rsetitem : v[key] and v[key] = value as executed by the repository's own tests
+              (contents abstracted by Python equality, None = -1)                             *)
 EXTENDS SerifVector, TLC, Json, IOUtils
 Trace == ndJsonDeserialize(IOEnv.TRACE_FILE)
 ToSetOf(s) == {s[i] : i \in 1..Len(s)}
@@ -28,6 +30,17 @@ Verdict(e) ==
            IF IsNa(e.vals) # e.isna THEN "isna"
            ELSE IF DropNa(e.vals) # e.dropna THEN "dropna"
            ELSE IF FillNa(e.vals, 7) # e.fill THEN "fillna" ELSE "ok"
+      [] e.op = "rgetitem" ->       \* recorded from the repository's own tests: arbitrary contents
+           LET pos == KeyPositions(e.n, e.key) IN
+           IF IsErr(pos) = e.ok THEN (IF e.ok THEN "index_accepts" ELSE "index_rejects")
+           ELSE IF e.ok /\ e.res # [k \in 1..Len(pos) |-> e.vals[pos[k] + 1]] THEN "getitem"
+           ELSE "ok"
+      [] e.op = "rsetitem" ->       \* a type rejection is not judged here (e.ok = FALSE with a good shape): only atomicity
+           LET pos == KeyPositions(e.n, e.key) IN
+           IF e.ok /\ ~AssignShapeOk(pos, e.value) THEN "assign_reject"
+           ELSE IF e.ok /\ AssignContents(e.before, pos, e.value) # e.after THEN "assign"
+           ELSE IF ~e.ok /\ e.after # e.before THEN "atomic"
+           ELSE "ok"
       [] OTHER -> "unknown_op"
 Bad == {<<Trace[i].id, Verdict(Trace[i])>> : i \in {j \in 1..Len(Trace) : Verdict(Trace[j]) # "ok"}}
 VARIABLE done
